@@ -311,6 +311,20 @@ Fixpoint impl_terminal_ok (h : hub) (prev : option (N * err)) (es : list ev) (o 
       ok && impl_terminal_ok (step h e) (match e with EReport s er => Some (s, er) | _ => prev end) r (skipn k o)
   end.
 
+(* CancelPairingWithSKI asks the connection to abort, which a SHIP connection does in
+   SmeHelloStatePendingListen / SmeHelloStateReadyListen only (AbortPendingHandshake returns
+   at once in every other state): a connection that is completed stays registered and
+   reports nothing any more, the detail says None, PairingDetailForSki says Completed *)
+Definition last_user_op (es : list ev) : option ev :=
+  fold_left (fun acc e => match e with
+                          | ERegister | EUnregister | ECancel | EInbound => Some e
+                          | _ => acc end) es None.
+Definition cancel_ignored (h : hub) (es : list ev) : bool :=
+  conn h && negb (fresh h)
+  && match last_user_op es with Some ECancel => true | _ => false end
+  && negb (N.eqb (fst (live h)) SmeHelloStatePendingListen || N.eqb (fst (live h)) SmeHelloStateReadyListen)
+  && match pending h with [] => true | _ => false end.
+
 Definition check_unit (st : bool) (evs : list ev) (o : list obs) : codes :=
   let h0 := init st in
   let h := run h0 evs in
@@ -322,6 +336,12 @@ Definition check_unit (st : bool) (evs : list ev) (o : list obs) : codes :=
            ++ (if overtaken l || inverted l then [] else [13]))
   ++ (if negb (wf_reports evs) || impl_last_ok h evs o then []
       else if inverted l then [] (* already reported as 11 by the order monitor *) else [12])
+  ++ (if cancel_ignored h evs
+         && match last_obs_ans o, last_obs_note_state o with
+            | Some a, Some n => negb (N.eqb a n)
+            | _, _ => false
+            end
+      then [14] else [])
   ++ (if impl_terminal_ok h0 None evs o then [] else [15]).
 
 (* system level: deliver everything that is pending, oldest first *)
@@ -351,7 +371,8 @@ Definition check_sys (st : bool) (evs : list ev) (notes : list N) (ans : N) : co
   (if perm then [] else [1])
   ++ (if negb (settled hq) || negb (wf_reports evs) || last_ok then []
       else if perm && negb (list_eqb N.eqb notes fifo_notes) then [11] else [12])
-  ++ (if conn hq && wf_reports evs then
+  ++ (if cancel_ignored hq evs && negb last_ok then [14] else [])
+  ++ (if conn hq && fresh hq && wf_reports evs then
         match last_report evs with
         | Some (s, er) => match expected_terminal s er with
                           | Some x => if N.eqb ans x then [] else [15]
